@@ -189,7 +189,14 @@ def _copy_value(o, depth=0):
     c = AObj({}, oid=o.oid, cls=o.cls, ftypes=o.ftypes)
     c.ptrs = getattr(o, 'ptrs', frozenset())
     for k, v in o.attrs.items():
-        c.attrs[k] = _copy_value(v, depth + 1) if (isinstance(v, AObj) and depth < 8 and k not in c.ptrs) else v
+        if isinstance(v, AObj) and depth < 8 and k not in c.ptrs:
+            c.attrs[k] = _copy_value(v, depth + 1)
+        elif isinstance(v, list) and k not in c.ptrs and depth < 8:
+            # an array member is part of the value (char abbrev[7], DateTuple t[2]): its cells are copied, cells that hold pointers
+            # keep pointing where they did
+            c.attrs[k] = [_copy_value(x, depth + 1) if isinstance(x, AObj) else x for x in v]
+        else:
+            c.attrs[k] = v
     return c
 
 
@@ -297,6 +304,43 @@ class AEval:
                 return Ref(p, 0)         # *array: its first element
         raise AnalysisError('abstract evaluation: %s is passed by reference but is not a storage cell (%s)' % (show(e), e.loc))
 
+    def _global_object(self, q):
+        """a constant of class type defined with an initialiser list (`const ZoneEra kAnchorEra = { nullptr, nullptr, 0, ... }`):
+        one object per library, its members filled in declaration order with the folded initialisers (nullptr -> null)"""
+        lib = getattr(self.module, 'lib', None)
+        if lib is None:
+            return None
+        cache = lib.__dict__.setdefault('_global_objects', {})
+        if q in cache:
+            return cache[q]
+        obj = None
+        for d in lib.decls.get(q, []):
+            if d.get('kind') != 'VarDecl' or 'init' not in d:
+                continue
+            il = [x for x in d.get('inner', []) if x.get('kind') == 'InitListExpr']
+            from .cxx import nty, int_type
+            cls = (nty(d) or '').replace('const ', '').strip()
+            try:
+                flds = lib.fields(cls)
+            except Exception:
+                flds = None
+            if not il or not flds:
+                continue
+            vals = il[0].get('inner', [])
+            attrs, ftypes = {}, {}
+            for i, (n_, t_, _x) in enumerate(flds):
+                v_ = lib.fold_node(vals[i]) if i < len(vals) else 0
+                if t_ and '*' in t_:
+                    v_ = None if not v_ else v_
+                attrs[n_] = v_ if v_ is not None or (t_ and '*' in t_) else 0
+                if int_type((t_ or '').replace('const ', '').strip()):
+                    ftypes[n_] = int_type((t_ or '').replace('const ', '').strip())
+            obj = AObj(attrs, oid=q.split('::')[-1], cls=cls, ftypes=ftypes)
+            obj.ptrs = frozenset(n_ for n_, t_, _x in flds if t_ and '*' in t_)
+            break
+        cache[q] = obj
+        return obj
+
     # -- calls --------------------------------------------------------------------------------
     def call_function(self, qname, args, depth=0, recv=None, chosen=None):
         f = chosen
@@ -360,6 +404,12 @@ class AEval:
         elif k == 'decl':
             it = self._ity(a[1])
             env[a[0]] = self._wrap(self.ev(a[2], env, depth), it) if a[2] is not None else None
+            if self.typed and a[2] is not None and isinstance(env[a[0]], AObj) and env[a[0]].cls and a[1] and '*' not in a[1] and '&' not in a[1]:
+                src_ = a[2]
+                while src_.k == 'cast':
+                    src_ = src_.a[2]
+                if src_.k in ('var', 'field', 'index', 'deref'):
+                    env[a[0]] = _copy_value(env[a[0]])       # `T x = <lvalue>;` makes a copy (the copy constructor is elided in the IR)
             if a[2] is None and self.typed and a[1] and a[1].rstrip().endswith(']'):
                 # `T name[N];` - a local array without initialiser: N cells (objects of class type are default-made)
                 import re as _re
@@ -461,13 +511,15 @@ class AEval:
             if env.get('\x00ref:' + tgt.a[0]) and isinstance(cur, Ref):
                 cur_v = cur.get()
                 if self.typed and isinstance(cur_v, AObj) and isinstance(v, AObj) and cur_v is not v:
+                    nv_ = _copy_value(v).attrs if v.cls else v.attrs
                     cur_v.attrs.clear()
-                    cur_v.attrs.update(v.attrs)      # assignment through a reference to an object copies the value into it
+                    cur_v.attrs.update(nv_)          # assignment through a reference to an object copies the value into it
                 else:
                     cur.set(v)
             elif self.typed and isinstance(cur, AObj) and isinstance(v, AObj) and cur is not v and not env.get('\x00ptr:' + tgt.a[0]):
+                nv_ = _copy_value(v).attrs if v.cls else v.attrs
                 cur.attrs.clear()
-                cur.attrs.update(v.attrs)            # C++ value semantics: `obj = Class(...)` assigns into the object the name designates
+                cur.attrs.update(nv_)                # C++ value semantics: `obj = Class(...)` assigns into the object the name designates
             else:
                 env[tgt.a[0]] = v
         elif tgt.k == 'field':
@@ -620,6 +672,9 @@ class AEval:
                     arr = None
                 if arr is not None:
                     return list(arr)
+                g_ = self._global_object(a[0]) if self.typed else None
+                if g_ is not None:
+                    return g_
             raise AnalysisError('abstract evaluation: unbound name %s at %s' % (a[0], e.loc))
         if k == 'this':
             return env['self']
@@ -634,8 +689,9 @@ class AEval:
             return len(v)
         if k == 'field':
             o = self.ev(a[0], env, depth)
-            if isinstance(o, Ref):
-                o = o.get()          # p->f with p a pointer to an element of an array
+            for _ in range(3):
+                if isinstance(o, Ref):
+                    o = o.get()      # p->f with p a pointer to an element of an array (or to a pointer to one)
             if self.typed and isinstance(o, list) and o and isinstance(o[0], AObj):
                 o = o[0]             # array->f: the first element
             if isinstance(o, AObj):
@@ -714,9 +770,15 @@ class AEval:
                 if isinstance(o, AObj):
                     return Ref(o.attrs, t.a[1])
             if t.k == 'var' and t.a[0] in env:
+                if env.get('\x00ref:' + t.a[0]) and isinstance(env[t.a[0]], Ref):
+                    return env[t.a[0]]       # the address of a reference is the address of what it refers to
                 return Ref(env, t.a[0])
             if t.k == 'var' and self.module is not None and t.a[0] in self.module.funcs:
                 return FnRef(t.a[0])         # &function
+            if t.k == 'var' and self.typed:
+                g_ = self._global_object(t.a[0])
+                if g_ is not None:
+                    return g_                # &global of class type: the abstraction holds the object itself
             raise AnalysisError('abstract evaluation: address of %s at %s' % (show(t), e.loc))
         if k == 'deref':
             p = self.ev(a[0], env, depth)
